@@ -253,10 +253,19 @@ class Model:
 
         closed = closed_class_names(trees)
         self.inlined = normalize_package(trees)
+        from .normalize import inline_base_inits
+
+        self.inlined += inline_base_inits(trees)
         self.dispatches_converted = 0
         for rel, tree in trees.items():
             self.inlined += sequence_match_to_if(tree)
             self.inlined += inline_new_temps(rel, tree)
+            from .normalize import slice_calls_to_slices
+
+            self.inlined += slice_calls_to_slices(tree)
+            from .normalize import constant_matches_to_ifs
+
+            self.inlined += constant_matches_to_ifs(tree)
             self.dispatches_converted += isinstance_to_match(tree, closed)
             self.inlined += aliases_to_captures(tree)
             self.inlined += propagate_new_aliases(rel, tree)
